@@ -235,7 +235,8 @@ func scanKnown(src string) []string {
 			// N01: string keys/indices that look like non-canonical numbers
 			if t.k == tStr && len(t.s) > 2 {
 				p, nx := at(i-1), at(i+1)
-				if isPunct(p, "[") && isPunct(nx, "]") || (isPunct(p, "{") || isPunct(p, ",")) && (isPunct(nx, ":") || isPunct(nx, "(")) {
+				// (the index form a["1.0"] was repaired in /repo, K128; property NAMES are rewritten by the dependency's parser: K73)
+				if (isPunct(p, "{") || isPunct(p, ",")) && (isPunct(nx, ":") || isPunct(nx, "(")) {
 					if nonCanonicalNumber(t.s[1 : len(t.s)-1]) {
 						found["N01"] = true
 					}
